@@ -129,20 +129,68 @@ theorem selfdestruct_exact (s : St) (self ben : Addr) :
     omega
   · unfold suicide; simp only; rw [get_put_same]
 
+/-- The self-destruct step is stated per invocation: it does not consult whether the contract was destroyed
+    before (`dead`), so a contract that self-destructs, receives value again in the same un-finalised state and
+    self-destructs again hands over / burns exactly what it holds at that moment, each time. -/
+theorem selfdestruct_per_invocation (s : St) (d : List Addr) (self ben : Addr) :
+    (suicide { s with dead := d } self ben).bal = (suicide s self ben).bal ∧
+    (suicide { s with dead := d } self ben).burned = (suicide s self ben).burned := ⟨rfl, rfl⟩
+
+/-- driver 7 calls bomb 8 (beneficiary 9) three times, with value on the later calls: 9 receives 0+1+2, nothing is
+    duplicated, nothing stays in 8 -/
+example : let r := (exec [(7, [.call 8 0, .call 8 1, .call 8 2]), (8, [.suicide 9])] 1 20 7 false
+            [.call 8 0, .call 8 1, .call 8 2] { bal := [(7, 5), (8, 4)], dead := [], fresh := 0, burned := 0 }).1
+          get r.bal 9 = 7 ∧ get r.bal 8 = 0 ∧ get r.bal 7 = 2 ∧ total r.bal = 9 := by decide
+
 example : (exec [(7, [.call 8 3, .suicide 7])] 1 10 7 false [.call 8 3, .suicide 7]
             { bal := [(7, 5)], dead := [], fresh := 0, burned := 0 }).1.burned = 2 := by decide
 
 /-! ## 4. Whole transactions -/
 
-/-- **tx_conserves** (full statement). For every transaction of every modelled type (asset transfer with any
-    target list and amount strings, contract creation / call / jsonrpc with any gas-limit and value strings, any
-    program, any reported gas use, stake lock), from every state, successful, failed or evicted:
-    `total after + burned by self-destruct-to-self + stake locked = total before`.
-    In particular the sum of all balances never increases. -/
-theorem tx_conserves (fuel : Nat) (w : World) (tx : Tx) :
+/-- **tx_conserves**, the full statement of the property's accounting clause: over every transaction the sum
+    of all balances changes only by self-destruct-to-self burns and by stake locked. -/
+def FullStatementTxConserves : Prop :=
+  ∀ (fuel : Nat) (w : World) (tx : Tx),
     total (execTx fuel w tx).1.st.bal + (execTx fuel w tx).1.st.burned + lockedBy tx (execTx fuel w tx).2
-      = total w.st.bal + w.st.burned :=
-  execTx_mass fuel w tx
+      = total w.st.bal + w.st.burned
+
+/-- What holds of model and code: for every transaction of every modelled type (asset transfer with any target
+    list and amount strings, contract creation / call / jsonrpc with any gas-limit and value strings, any program,
+    any reported gas use, stake lock, OperatorNode), from every state, successful, failed or evicted:
+    `total after + burned + stake locked + node fee = total before`, the node fee being the 10 RPG a successful
+    OperatorNode transaction (type 7) debits and credits to nobody. -/
+theorem tx_conserves_partial (fuel : Nat) (w : World) (tx : Tx) :
+    total (execTx fuel w tx).1.st.bal + (execTx fuel w tx).1.st.burned
+      + lockedBy tx (execTx fuel w tx).2 + nodeFeeBy tx (execTx fuel w tx).2
+      = total w.st.bal + w.st.burned := by
+  have h := execTx_mass fuel w tx
+  unfold mass outflowBy at h
+  omega
+
+/-- The full statement holds for every transaction that is not an OperatorNode transaction. -/
+theorem tx_conserves_except_node (fuel : Nat) (w : World) (tx : Tx) (h : ∀ src ok, tx ≠ .node src ok) :
+    total (execTx fuel w tx).1.st.bal + (execTx fuel w tx).1.st.burned + lockedBy tx (execTx fuel w tx).2
+      = total w.st.bal + w.st.burned := by
+  have hm := tx_conserves_partial fuel w tx
+  have hz : nodeFeeBy tx (execTx fuel w tx).2 = 0 := by
+    cases tx with
+    | node src ok => exact absurd rfl (h src ok)
+    | operator _ _ _ => rfl
+    | lock _ _ _ => rfl
+    | contract _ => rfl
+  omega
+
+example : ∀ src ok, Tx.operator 1 true [] ≠ .node src ok := by intro src ok h; cases h
+
+/-- The full statement is false of the model — and of the code (known finding `burn-operator-node-fee`, replayed:
+    corpus/C06/06-operator-node-fee.ops): an account holding 20.001 RPG that owns a miner sends an OperatorNode
+    transaction; it succeeds, 10 RPG leave its balance and arrive nowhere. -/
+theorem tx_conserves_counterexample : ¬ FullStatementTxConserves := by
+  intro h
+  have := h 0 { st := { bal := [(1, 20001000000000000000)], dead := [], fresh := 0, burned := 0 }, code := [],
+                ctx := { gasUsed := none } } (.node 1 true)
+  revert this
+  decide
 
 /-- **The sum of all balances never increases** over any transaction, successful or failed. -/
 theorem tx_never_mints (fuel : Nat) (w : World) (tx : Tx) :
@@ -151,6 +199,13 @@ theorem tx_never_mints (fuel : Nat) (w : World) (tx : Tx) :
   have hb := execTx_burned fuel w tx
   unfold mass at h
   omega
+
+/-- OperatorNode: a successful one lowers the sum by exactly 10 RPG, a failed one by nothing. -/
+theorem node_fee_exact (b b' : Bal) (src : Addr) (ok : Bool) (h : nodeTx b src ok = some b') :
+    total b' + nodeFee = total b :=
+  nodeTx_total b b' src ok h
+
+theorem node_fee_is_ten : strToBigInt "10" = .val nodeFee := by decide
 
 /-- …and over any block of transactions. -/
 theorem block_never_mints (fuel : Nat) (w : World) (txs : List Tx) :
@@ -163,7 +218,7 @@ theorem block_never_mints (fuel : Nat) (w : World) (txs : List Tx) :
   omega
 
 /-- Sequences: a whole block (fresh executor context, stale `gasUsed` carried between its transactions,
-    suicided accounts dropped at the end) obeys the same equation with the locked stake summed. -/
+    suicided accounts dropped at the end) obeys the same equation with locked stake and node fees summed. -/
 theorem block_conserves (fuel : Nat) (w : World) (txs : List Tx) :
     total (execBlock fuel w txs).1.st.bal + (execBlock fuel w txs).1.st.burned
       + lockedSum txs (execBlock fuel w txs).2 = total w.st.bal + w.st.burned :=
@@ -194,5 +249,17 @@ example : lockStake [(1, 10)] 1 4 true = some [(1, 6)] ∧ lockStake [(1, 3)] 1 
 theorem refund_exact (b : Bal) (l : List (Addr × Nat)) :
     total (refundMove b l) = total b + (l.map (·.2)).sum :=
   refundMove_total l b
+
+/-- End of block (`VMExecutor.after`): the sum of all balances increases by exactly the escrow entries due at this
+    height (scheduled block rewards and stake refunds), and balances + escrow increase by exactly what the block
+    added to the escrow. -/
+theorem after_exact (b : Bal) (e : Escrow) (h : Nat) (added : Escrow) :
+    total (afterBlock b e h added).1 = total b + ((dueAt (e ++ added) h).map (·.2)).sum ∧
+    total (afterBlock b e h added).1 + escrowTotal (afterBlock b e h added).2
+      = total b + escrowTotal e + escrowTotal added :=
+  afterBlock_exact b e h added
+
+example : afterBlock [(1, 5)] [(10, 1, 3), (20, 2, 4)] 10 [(10, 2, 6), (30, 1, 1)]
+    = ([(1, 8), (2, 6)], [(20, 2, 4), (30, 1, 1)]) := by decide
 
 end Rangers.Props.C06
